@@ -11,6 +11,7 @@ pub mod c18;
 pub mod c20;
 pub mod c21;
 pub mod c22;
+pub mod c26;
 
 fn one(_: Tier) -> usize { 1 }
 
@@ -24,10 +25,13 @@ pub fn all() -> Vec<CheckDef> {
         CheckDef { id: "C20", shards: one, run: c20::run, replay: Some(c20::replay) },
         CheckDef { id: "C21", shards: one, run: c21::run, replay: Some(c21::replay) },
         CheckDef { id: "C22", shards: one, run: c22::run, replay: Some(c22::replay) },
+        CheckDef { id: "C26", shards: one, run: c26::run, replay: Some(c26::replay) },
     ]
 }
 
-pub fn aux(_args: &[String]) -> i32 {
-    eprintln!("unknown aux command");
-    2
+pub fn aux(args: &[String]) -> i32 {
+    match args.first().map(|s| s.as_str()) {
+        Some("c26-expand") => c26::aux_expand(&args[1..]),
+        _ => { eprintln!("unknown aux command"); 2 }
+    }
 }
